@@ -4,7 +4,9 @@ from . import dblog as DB
 from . import dirty as D
 
 EXPLANATION = (
-    "Static conformance of the record codec and of record attribution on rustc MIR of the current tree: (codec) the call sequence of write_build over "
+    "Static conformance of the record codec and of record attribution on rustc MIR of the current tree: (loaded-as-recorded) Build.discovered_ins has one "
+    "whole-value writer that stores its argument unchanged (no sort / dedup / merge), read_build builds the loaded list by pushing each id it reads, once, in "
+    "order, and the writer emits the stored list in order; (codec) the call sequence of write_build over "
     "{u16,id,u64} and of the reader (record dispatch + read_build) form the same regular pattern `u16 (id)* u16 (id)* u64`, path records are `u16 bytes` on "
     "both sides, primitive widths agree (2/2, 3/3 with a zero-initialised 4-byte decode buffer, 8/8), ids are u24 on both sides, the tag bit is the one "
     "constant 0x8000 in the build mark, the path length guard and the reader mask, and the reader dispatches tag-clear to read_path(len) and tag-set to "
@@ -19,7 +21,42 @@ ASSUMPTIONS = ["value-level round trip and behaviour across arbitrary manifest e
 THOROUGH_CONFIGS = ["nodefault"]
 
 
+def loaded_as_recorded(ck, ctx):
+    """the dependency list attached on load is, element for element and in order, the list of ids read from the record"""
+    from n2sa import query as Q
+    from n2sa.expr import strip, calls_in, field_chain
+    from n2sa.facts import callee_of
+    from . import C09 as R09
+    F = ctx.F
+    R09.single_writer(ck, ctx)
+    b = ck.need("fn " + DB.RB, F.body(DB.RB))
+    R = ctx.res(b)
+    cfg = ctx.cfg(b)
+    sdi = Q.sites_in(b, "graph::Build::set_discovered_ins")
+    for bb, t in sdi:
+        e = strip(R.arg(bb, 1))
+        ok = e[0] == "call" and e[1].endswith("Vec::new")
+        # every Vec method applied to that vector in read_build is `push`
+        meths = sorted({callee_of(tt).split("::")[-1] for x, tt in b.calls() if callee_of(tt).startswith("std::vec::Vec::") or callee_of(tt).startswith("core::slice::") if tt["args"] and any(c == e for c in calls_in(R.arg(x, 0)))} - {"new"})
+        ck.ob("loaded-as-recorded", "read_build|list-built-by-push-only", ok and meths == ["push"], "the loaded list is a fresh Vec filled only by push (methods applied: %s)" % meths, span=t["loc"], fn=b.nname)
+    pushes = [(bb, t) for bb, t in b.calls() if callee_of(t).endswith("Vec::push")]
+    for i, (bb, t) in enumerate(pushes):
+        v = strip(R.arg(bb, 1))
+        ok = any(c[1].endswith("Index<K>>::index") and field_chain(strip(c[2][0]))[1][-1:] == ["fileids"] and any(cc[1] == "db::Reader::read_id" for cc in calls_in(c[2][1])) for c in calls_in(v)) or (v[0] == "call" and v[1].endswith("Index<K>>::index"))
+        hdr = cfg.enclosing_loop_header(bb)
+        rid = [x for x, tt in b.calls() if callee_of(tt) == "db::Reader::read_id" and cfg.enclosing_loop_header(x) == hdr]
+        ck.ob("loaded-as-recorded", "read_build|push#%d" % i, ok and len(rid) == 1 and cfg.dominates(rid[0], bb), "each id read in the dependency loop is pushed once, mapped through the id table, in reading order", span=t["loc"], fn=b.nname)
+    # the writer emits discovered_ins() in its stored order (no sort / dedup between accessor and loop)
+    wb = F.body(DB.WB)
+    WR = ctx.res(wb)
+    for bb, t in Q.sites_in(wb, "db::Writer::ensure_id"):
+        e = WR.arg(bb, 2)
+        whole, bad = C.iter_is_whole(e)
+        ck.ob("loaded-as-recorded", "write_build|order#%d" % bb, whole and not any(c[1].endswith(("sort", "sort_unstable", "dedup", "rev")) for c in calls_in(e)), "ids are written in the stored order of the list (%s)" % bad, span=t["loc"], fn=wb.nname)
+
+
 def run(ck, ctx):
+    loaded_as_recorded(ck, ctx)
     DB.codec(ck, ctx)
     DB.prefix_agrees(ck, ctx)
     DB.narrowing(ck, ctx)
